@@ -181,7 +181,17 @@ def _items(env):
     raise ValueError(env)
 
 
+def _unwrap(x):
+    from leaspy.utils.weighted_tensor import WeightedTensor
+    if isinstance(x, WeightedTensor):
+        if x.weight is not None and not bool((x.weight == 1).all()):
+            return None
+        return x.value
+    return x
+
+
 def same(a, b):
+    a, b = _unwrap(a), _unwrap(b)
     if a is None or b is None:
         return a is None and b is None
     if a.shape != b.shape:
@@ -196,10 +206,17 @@ _RMODE = {None: "none", StateForkType.REF: "ref", StateForkType.COPY: "copy"}
 class Replayer:
     """Executes spec actions on real State objects and compares projections after each step."""
 
-    def __init__(self, graph):
+    def __init__(self, graph, weighted=False):
         self.graph = graph
         self.dag, self.fns = build_dag(graph)
         self.n_inds = 2
+        self.weighted = weighted      # values carrying the individual axis are WeightedTensors (as `model`, `y` in leaspy)
+
+    def wrap(self, node, v):
+        if self.weighted and v is not None and node in self.graph["indaxis"]:
+            from leaspy.utils.weighted_tensor import WeightedTensor
+            return WeightedTensor(v, torch.ones_like(v, dtype=torch.bool))
+        return v
 
     def order(self):
         return list(self.dag.sorted_variables_names)
@@ -243,7 +260,7 @@ class Replayer:
             if op == "SetMode":
                 real[o].auto_fork_type = _MODE[args[0]]
             elif op == "Assign":
-                real[o][node] = num(args[0], self.fns, self.graph, self.n_inds)
+                real[o][node] = self.wrap(node, num(args[0], self.fns, self.graph, self.n_inds))
             elif op == "Put":
                 i, x, acc = args
                 xv = num(x, self.fns, self.graph, self.n_inds)
@@ -587,7 +604,8 @@ def run_toy(ctx, pid, plan, sim_traces, sim_depth):
                 seen_states.add(hash((gname, repr(st["obj"]))))
             if pid == "C02" and not any(o.startswith("Revert") for o in ops):
                 continue
-            bad = Replayer(graph).replay(tr)
+            weighted = bool(graph["indaxis"]) and (ctx.traces % 2 == 1)
+            bad = Replayer(graph, weighted=weighted).replay(tr)
             ctx.traces += 1
             if len(ctx.samples) < 3:
                 ctx.sample({"graph": gname, "behaviour": [f"{st['last']} {st['args']}" for _, st in tr[1:]]})
